@@ -1,21 +1,25 @@
 """./check configuration for C07 (hosts-file record grammar and round trip)."""
 
 PROP = dict(
-    technique='Lean refinement of the two-pass cutter to a field-list specification, error classification, round trip under ADDR-RT; differential tie with an oracle table for idna',
     module="GolibsVerif.Theorems.C07", namespace="GolibsVerif.C07",
     rule="lines from a hosts(5) grammar (address: v4 / v6 / zone / 4in6 / mutated; 0..6 names: plain, IDN, over-long labels and "
          "names, invalid UTF-8, CR; separators: space/tab mixes; leading/trailing blanks; comments before, between, inside and after "
          "fields; random byte soup) through UnmarshalText (zero and pre-populated record), through parse -> MarshalText -> parse, "
-         "plus cutField/cutStringField and MarshalText on arbitrary records; non-trivial = the comment-stripped line has >= 2 "
-         "fields (an address or name rule decides) or a record is marshalled; distinct = distinct case line",
+         "plus cutField/cutStringField and MarshalText on arbitrary records; plus netip.Addr.String / MarshalText on constructed "
+         "addresses (std.addrstring: zero Addr, IPv4 boundary octets, every zero/non-zero layout of the eight IPv6 groups, single "
+         "group at each position with boundary values, IPv4-mapped and neighbours, zones containing '%' ':' '.' blanks NUL 0xff); "
+         "non-trivial = the comment-stripped line has >= 2 fields (an address or name rule decides), a record is marshalled, or a "
+         "valid address is formatted; distinct = distinct case line",
     trusted=["idna.ToASCII is a parameter of the model; its answers for every blank-separated token of the line travel with the case "
              "(a model lookup outside the table prints ORACLE-MISS)",
              "netip.ParseAddr is the Lean model Go/Netip.lean (validated by std.parseaddr ops of C02 and by every C07 case)",
-             "contract ADDR-RT (hypothesis hrt of marshal_unmarshal): ParseAddr(a.String()) = a; sampled on every accepted record "
-             "(failure key contract-addr-rt).  That a.String() has no blank or '#' is proved from the netip model (addr_text_clean)",
+             "netip.Addr.String / MarshalText / AppendTo are the Lean model Go/NetipFmt.lean (go1.24 source, statement by statement; "
+             "validated by the std.addrstring op and by every C07.marshal / C07.roundtrip case, whose marshalled line the model now "
+             "builds with its own address text).  The former contract ADDR-RT, ParseAddr(a.String()) = a, is a theorem about the two "
+             "models (addr_roundtrip, every non-zero address, any zone); it is still evaluated on the real functions as the direct "
+             "oracle of std.addrstring and of every accepted round trip (failure key contract-addr-rt)",
              "bytes.IndexAny / Trim / TrimLeft modelled byte-wise, valid for an ASCII-only cutset: gen/c07.go regenerates "
-             "hostsfile.spaces into Gen/C07.lean and fails if it is not ASCII-only",
-             "Addr.MarshalText() is supplied as an oracle field (formatAddr parameter)"],
+             "hostsfile.spaces into Gen/C07.lean and fails if it is not ASCII-only"],
     assumptions=["nil and empty []string / []byte are not distinguished (the code only takes len of them)",
                  "errors are compared as: identity of ErrEmptyLine / ErrNoHosts, 'a netip.ParseAddr error', or the index parsed from "
                  "'name at index %d' plus the structural rendering of the wrapped *netutil.AddrError"],
@@ -23,6 +27,8 @@ PROP = dict(
                "model of cutField / cutStringField / Record.UnmarshalText / Record.MarshalText by the hosts(5) field grammar "
                "(acceptance iff, exact Addr/Names, rejection classes, agreement of the two cutting passes, round trip, totality); "
                "the model is tied to the Go code by running both on the same generated lines on every check",
-    level_note="all theorems at full strength over the model; marshal_unmarshal takes contract ADDR-RT as its only hypothesis (sampled); "
-               "trusted: Lean kernel, the differential correspondence (sampled), idna.ToASCII as a parameter, the netip model",
+    level_note="all theorems at full strength over the model; marshal_unmarshal has no hypothesis besides acceptance (the former "
+               "contract ADDR-RT is proved: addr_roundtrip + parsed_addr_wf); "
+               "trusted: Lean kernel, the differential correspondence (sampled), idna.ToASCII as a parameter, the netip parser and "
+               "formatter models",
 )
